@@ -25,7 +25,8 @@ RULE = ("from_X(to_X(obj)) for: Instance.to/from_compact_str and "
         "or multi-digit value")
 LEVEL_ASSUMPTIONS = ["field-by-field comparison in this file; CSV files are "
                      "written under .work and removed"]
-REQUIRED = {"instance_roundtrips": 300, "packing_roundtrips": 100,
+REQUIRED = {"same_name_sibling_roundtrips": 100,
+            "instance_roundtrips": 300, "packing_roundtrips": 100,
             "gameplan_roundtrips": 100, "ordering_roundtrips": 50,
             "result_tables": 40, "statistics_tables": 20,
             "tables_with_mixed_optional_columns": 15,
@@ -110,7 +111,7 @@ def inst_fields(i):
             "lower_bound_bins": i.lower_bound_bins}
 
 
-def instance_case(ctx, desc):
+def instance_case(ctx, desc, sibling=False):
     from moptipyapps.binpacking2d.instance import Instance
     from moptipyapps.binpacking2d.instgen.instance_space import InstanceSpace
     inst = wb.make_real(desc)
@@ -127,6 +128,23 @@ def instance_case(ctx, desc):
     if any(r[2] > 1 for r in desc["items"]) or max(
             max(r) for r in desc["items"]) > 9:
         ctx.nontrivial("inst", desc["W"], desc["H"], desc["items"])
+    # history: a DIFFERENT instance with the same name, bin size and number
+    # of item types is parsed right afterwards (what an instance space sees
+    # all the time: all its candidates share name and bins)
+    if not sibling and desc.get("cls") != "shipped":
+        sib = dict(desc)
+        sib["items"] = [list(r) for r in desc["items"]]
+        j = int(ctx.rng.integers(len(sib["items"])))
+        w, h, r = sib["items"][j]
+        if ctx.rng.integers(2) or max(w, h) <= 1:
+            sib["items"][j][2] = r + int(ctx.rng.integers(1, 4))
+        elif w > 1 and w - 1 >= 1:
+            sib["items"][j][0] = w - 1
+        try:
+            instance_case(ctx, sib, sibling=True)
+            ctx.count("same_name_sibling_roundtrips")
+        except ValueError:
+            ctx.count("sibling_rejected_by_ctor")
     try:
         sp = InstanceSpace(inst)
     except ValueError:
